@@ -895,6 +895,11 @@ uint32_t adfFileRead ( struct AdfFile * const file,
     while ( bytesRead < n ) {
 
         if ( file->posInDataBlk == blockSize ) {
+            // a block changed through this handle must be written before it is replaced
+            if ( file->modeWrite && file->currentDataBlockChanged ) {
+                adfFileFlush ( file );
+                file->currentDataBlockChanged = FALSE;
+            }
             RETCODE rc = adfFileReadNextBlock ( file );
             if ( rc != RC_OK ) {
                 adfEnv.eFct ( "adfReadFile : error reading next data block, "
